@@ -183,8 +183,9 @@ def run_case(case):
                         lkw['loader'] = pg.PrefixLoader()          # the loader may also be handed to the load
                     if mode == 'R':
                         lkw['loader'] = pg.RegistryLoader({'answer': 42})      # ... and must be when it has no default constructor
+                    load_ctx = plumpy.LoadSaveContext(**lkw)
                     try:
-                        q = rec['copies'][m].unbundle(plumpy.LoadSaveContext(**lkw))
+                        q = rec['copies'][m].unbundle(load_ctx)
                     except Exception as e:  # noqa
                         fail('load-raised', 'a saved process can be loaded', where, mode, f'{m}: {type(e).__name__}: {e}')
                         impl[m] = ' '.join(arrived) + ' | err:load'
@@ -197,7 +198,10 @@ def run_case(case):
                     except Exception as e:  # noqa
                         fail('load-mutated-bundle', 'loading leaves the bundle as it is', where, mode, f'{m}: {type(e).__name__}: {e}')
                     try:
-                        again = pg.flat_bundle(plumpy.Bundle(q, save_ctx(mode)))
+                        # with the default loader (no save context needed) every other re-save REUSES the context object the load
+                        # was given: a context belongs to its caller, a load must not leave anything behind in it
+                        reuse = mode == 'D' and (mi + len(records)) % 2 == 0
+                        again = pg.flat_bundle(plumpy.Bundle(q, load_ctx if reuse else save_ctx(mode)))
                     except Exception as e:  # noqa
                         again = None
                         fail('resave-raised', 'the loaded process can be saved again', where, mode, f'{m}: {type(e).__name__}: {e}')
